@@ -47,6 +47,7 @@ type Job struct {
 	Labels   []string       `json:"labels,omitempty"` // labels that must be reached (vacuity guard)
 	Verbose  bool           `json:"-"`
 	Desc     string         `json:"desc,omitempty"`
+	Selftest bool           `json:"selftest,omitempty"` // differential concrete run: engine trace must equal the native trace
 	Prefer   string         `json:"solver_first,omitempty"` // "int" (default) or "bits": which z3 configuration is asked first
 }
 
@@ -113,6 +114,7 @@ type JobResult struct {
 	Samples       []interface{}
 	QueryFiles    []string
 	Races         []string
+	Trace         []string // trace of the (single) path of a self-test job
 }
 
 type Explorer struct {
@@ -153,6 +155,7 @@ type Run struct {
 	unwinds    []string
 	samples    []interface{}
 	pending    []pendingAssert
+	trace      []string    // vTrace values (translator self-test)
 	replayVals []NondetVal // interpretive replay: nondets take these concrete values, in order
 	replayHit  string      // label of the assertion that evaluated to false concretely
 }
@@ -724,6 +727,9 @@ func (ex *Explorer) runOne(sv *Solver, prefix []dec) {
 	defer ex.mu.Unlock()
 	res := ex.res
 	res.Paths++
+	if job.Selftest {
+		res.Trace = append([]string(nil), r.trace...)
+	}
 	res.Forks += r.forks
 	res.Obligations += r.obligations
 	res.Discharged += r.discharged
